@@ -248,7 +248,28 @@ class ResumeOracle:
         return None
 
 
-def run_history(res, U, triggers, flags, wr, knob_tape=None, keep_stale_omn=False):
+def neighbour_name(t, name):
+    """another session name a user keeps next to `name`: one trailing character more or less"""
+    if len(name) >= 2 and t.chance(1, 3):
+        return name[:-1]
+    return name + t.choice(["s", "a", "v", ".", "s", "2", "_old", ".sav"])
+
+
+def neighbour_sitting(t, res, flags, trigger):
+    """between a quit and the --load that follows it, the user runs ANOTHER session (other name, same directory, same
+    ruleset) and quits it too: its save files are its own"""
+    mine = SESSION[0]
+    SESSION[0] = neighbour_name(t, mine)
+    try:
+        rn = run_cycle(flags, load=False, trigger=trigger, knobs={"guess_cap": 4000})
+    finally:
+        SESSION[0] = mine
+    res.faults["other_session_quit_between_quit_and_resume"] += 1
+    if rn.ctx.fired_in:
+        res.stats["other_session_quit_inside_" + rn.ctx.fired_in] += 1
+
+
+def run_history(res, U, triggers, flags, wr, knob_tape=None, keep_stale_omn=False, neighbour=None):
     """one quit/resume history: triggers for successive cycles, then a final cycle to exhaustion"""
     oracle = ResumeOracle(U, res)
     if keep_stale_omn and os.path.exists(os.path.join(wr, SESSION[0] + ".omn")):
@@ -287,6 +308,8 @@ def run_history(res, U, triggers, flags, wr, knob_tape=None, keep_stale_omn=Fals
             return (kind, det, problem[2] if len(problem) > 2 else None), seg
         if oracle.done:
             break
+        if neighbour is not None and r.ctx.fired and neighbour[0].chance(1, 4):
+            neighbour_sitting(neighbour[0], res, flags, neighbour[1](neighbour[0]))
     return None, seg
 
 
@@ -374,7 +397,7 @@ def run_c08(tape, tier, res):
         histories.append(cuts)
     shapes = []
     for cuts in histories:
-        problem, seg = run_history(res, U, cuts, flags, wr)
+        problem, seg = run_history(res, U, cuts, flags, wr, neighbour=(t, lambda tt: ("pop", tt.between(1, 9))))
         res.stats["histories"] += 1
         res.stats["cycles"] += len(seg)
         shapes.append((tuple(cuts), tuple(seg)))
@@ -529,7 +552,8 @@ def run_c15(tape, tier, res):
         histories.append([("omen", m, j)] + tail())
     shapes = []
     for trigs in histories:
-        problem, seg = run_history(res, U, trigs, flags, wr, knob_tape=t, keep_stale_omn=t.chance(1, 3))
+        problem, seg = run_history(res, U, trigs, flags, wr, knob_tape=t, keep_stale_omn=t.chance(1, 3),
+                                   neighbour=(t, lambda tt: ("omen", 1, tt.between(1, 12))))
         res.stats["histories"] += 1
         res.stats["cycles"] += len(seg)
         shapes.append((tuple(trigs), tuple(seg)))
